@@ -188,6 +188,8 @@ def gen_def(rng, kind):
         d['prim'] = rng.choice(['blur', 'blur1', 'offset', 'flood', 'offset-sub', 'shadow', 'shadow1', 'morph', 'morph1', 'displace'])
         d['p'] = [rng.choice([Fraction(1, 16), Fraction(1, 8), Fraction(1, 32)]), rng.choice([Fraction(1, 16), Fraction(1, 8)])]
         d['sub'] = [Fraction(1, 8), Fraction(1, 4), Fraction(1, 2), Fraction(1, 2)]
+        if d['prim'] == 'displace' and d['rect'] is None and d['units'] == 'obb':
+            d['rect'] = [Fraction(-1, 4), Fraction(-1, 4), Fraction(3, 2), Fraction(3, 2)]     # exact in f32: no ceil flip of the region
     return d
 
 
@@ -804,6 +806,7 @@ def run(ctx):
 
     # ---------------------------------------------------------------- S: objectBoundingBox document vs hand-mapped document
     kinds_hist = {}
+    skipped_f4 = [0]
     noise = dict(max_delta=0, max_ndiff=0)
     for c, ob, r in zip(live, outsB, rp):
         d, users, boxes = c['d'], c['users'], c['boxes']
@@ -811,6 +814,14 @@ def run(ctx):
         tb = jload(ob)
         r = jload(r)
         c['B'] = tb
+        f4 = False
+        if 'root' in tb and 'panic' in r and re.search(r"assertion failed: src\.(width|height) ==", str(r.get('panic', ''))) \
+                and re.search(r"filter/(composite|lighting|displacement_map)\.rs", str(r.get('at', ''))):
+            # the renderer's filter-size assert (C02/C13 known class filter-size-assert, F4) fired while rendering the pair:
+            # not a C18 matter; the pixels cannot be compared, the definition numbers still are
+            f4 = True
+            skipped_f4[0] += 1
+            r = dict(ndiff=0, nbig=0, max=0, nonblank=1)
         if 'root' not in tb or 'ndiff' not in r:
             ctx.violation("hand-mapped document failed: %s %s" % (str(tb)[:120], str(r)[:120]), dict(kind='s-obb', docA=c['docA'], docB=c['docB']))
             continue
@@ -887,7 +898,7 @@ def run(ctx):
                 ctx.violation(text, rep)
             if len(ctx.violations) > 10:
                 break
-    ctx.cov['oracle'] = dict(cases=len(live), kinds=kinds_hist, pixel_tolerance=1, max_delta_on_passing=noise['max_delta'],
+    ctx.cov['oracle'] = dict(cases=len(live), kinds=kinds_hist, pixel_tolerance=1, max_delta_on_passing=noise['max_delta'], skipped_f4_assert=skipped_f4[0],
                              known_classes_hit=[c for c, _ in ctx.known_hits])
     if live:
         ctx.add_sample(dict(op='s-obb', docA=live[0]['docA'][:400]))
